@@ -1,13 +1,19 @@
 import Driver.CronEngine
+import Driver.QueueEngine
+import Driver.SchedEngine
 /-! `qmodel`: one operation per input line, one answer per output line. -/
 namespace Driver
 
 structure State where
   cron : CronState := {}
+  queue : Queue.Arr := #[]
+  sched : SchedSt := {}
 
 def step (st : State) (line : String) : State × String :=
   match words line with
   | "cron" :: ws => let (c, out) := cronStep st.cron ws; ({ st with cron := c }, out)
+  | "queue" :: ws => let (q, out) := queueStep st.queue ws; ({ st with queue := q }, out)
+  | "sched" :: ws => let (q, out) := schedStep st.sched ws; ({ st with sched := q }, out)
   | _ => (st, "bad-op")
 
 partial def loop (hin hout : IO.FS.Stream) (st : State) : IO Unit := do
